@@ -50,7 +50,8 @@ Pick == LET ok   == {c \in Calls : Useful(c) /\ Fits(c) /\ ArchiveOK(c)}
         IN IF hc # {} /\ RandomElement(1..100) <= HBias
            THEN {RandomElement(IF hcok # {} /\ RandomElement(1..100) <= 85 THEN hcok ELSE hc)}
            ELSE IF touch # {} /\ RandomElement(1..100) <= HBias THEN {RandomElement(touch)}
-           ELSE IF self # {} /\ RandomElement(1..100) <= 4 THEN {RandomElement(self)} ELSE
+           ELSE IF self # {} /\ RandomElement(1..100) <= 4 THEN {RandomElement(self)}
+           ELSE IF RestartKinds # {} /\ RandomElement(1..100) <= 6 THEN {C("Restart", Root, Root, "", RandomElement(RestartKinds))} ELSE
            {RandomElement(IF k <= OkBias /\ ok # {} THEN ok
                           ELSE IF k <= OkBias + (100 - OkBias) \div 2 /\ near # {} THEN near ELSE all)}
 
